@@ -75,6 +75,9 @@ def cells(tier):
     out.append(Cell(pid=PID, cid='C18/sources/file-bytes-str-s3', harness='h_collect:sources_cell', params={},
                     sym=[('i', 'int')], pre=['0 <= i < %d' % len(SOURCE_DOCS)], stubs=(), timeout=T, cost=3,
                     example={'i': 2}))
+    out.append(Cell(pid=PID, cid='C18/s3/re-read-after-change', harness='h_collect:s3_reread_cell', params={},
+                    sym=[('s0', 'str'), ('s1', 'str')], pre=str_pre(['s0', 's1']) + ['s0 != s1'], stubs=('hash',), timeout=T,
+                    cost=2))
     # the three constructors over the same contents (shared with C09/C10): same fold for each source
     for src in ('string', 'file', 's3'):
         out.append(cmk(PID, ('roStoryAppend', 'roStoryMove', 'roDelete'), False, src, T=T, tag='three-constructors'))
